@@ -72,6 +72,8 @@ structure Proc where
   ppid : Nat := 1
   /-- `/dev/tty` exists in the file system (not per-process state; carried here for convenience) -/
   ttyAvail : Bool := false
+  /-- `resource_limits[NOFILE].soft` as `ulimit -S -n` prints it (`unlimited` when not set) -/
+  nofile : String := "unlimited"
 
 /-- `JobList` as far as a subshell can see it: the listed jobs (job number, identity, `is_owned`), the job
     `$!` designates (`last_async_pid`), and a counter for fresh identities. All jobs of the sweep are running. -/
@@ -188,7 +190,10 @@ def Proc.forkFrom (copied : List (String × String)) (ppid : Nat) (parent : Proc
     sys := { disp := if isCopied copied "dispositions" then parent.sys.disp else fun _ => .default,
              blocked := if isCopied copied "blocked_signals" then parent.sys.blocked else fun _ => false,
              selectMask := parent.sys.selectMask },
-    ppid := ppid, ttyAvail := parent.ttyAvail }
+    ppid := ppid, ttyAvail := parent.ttyAvail,
+    -- the limits are copied or start unset; they never filter the descriptor table (`fds` above is the
+    -- parent's table whatever `nofile` is — POSIX: a fork duplicates every open descriptor)
+    nofile := if isCopied copied "resource_limits" then parent.nofile else "unlimited" }
 
 /-- the code as it is -/
 def implCopied : List (String × String) := Generated.ForkMaps.processForkMap
@@ -196,7 +201,7 @@ def implCopied : List (String × String) := Generated.ForkMaps.processForkMap
 /-- what POSIX `fork` copies of the fields the property names -/
 def specCopied : List (String × String) :=
   [("fds", "fds"), ("cwd", "cwd"), ("umask", "umask"), ("dispositions", "dispositions"),
-   ("blocked_signals", "blocked_signals")]
+   ("blocked_signals", "blocked_signals"), ("resource_limits", "resource_limits")]
 
 /-- `Env::run_in_child_process` (over `VirtualSystem::run_in_child_process`): extract, clone for the child,
     fork the process, build the child's `Env`, restore the parent. Returns (parent after the call, what the
@@ -245,7 +250,7 @@ inductive Op where
   | optOn (o : String) | optOff (o : String) | shift | args (xs : List String)
   | cd (d : String) | umask (m : String) | trap (cond : Nat) (a : TrapAct)
   | fdw (n : Nat) (file : String) | fdr (n : Nat) | fdd (n m : Nat) | fdc (n : Nat)
-  | local (n v : String) | raise (sig : Nat) | bg | exit (n : Nat)
+  | local (n v : String) | raise (sig : Nat) | bg | exit (n : Nat) | nofile (v : String)
   deriving DecidableEq, Repr
 
 /-- sorted insertion into the list of enabled options -/
@@ -422,6 +427,7 @@ def applyOpCore (sh : Shell) (op : Op) : Shell :=
     if env.options.contains "portable" && nonPortableOpts.contains o then { sh with halted := some 2 }
     else { sh with env := monitorChanged o { env with options := env.options.filter (· ≠ o) } }
   | .bg => { sh with env := { env with jobs := env.jobs.add } }
+  | .nofile v => { sh with env := { env with system := { env.system with nofile := v } } }
   | .exit _ => sh
   | .shift => { sh with env := { env with variables := { env.variables with params := env.variables.params.drop 1 } } }
   | .args xs => { sh with env := { env with variables := { env.variables with params := xs } } }
@@ -522,7 +528,7 @@ def showSnapshot (env : Env) : String :=
   let f := env.functions.map fun kv => kv.1 ++ "=" ++ kv.2
   let a := env.aliases.map fun kv => kv.1 ++ "=" ++ kv.2
   let t := trackedConds.filterMap (showTrapLine env)
-  s!"v={",".intercalate v} f={",".intercalate f} a={",".intercalate a} o={",".intercalate env.options} u={env.system.umask} t={",".intercalate t} p={",".intercalate env.variables.params} {showSys env.system} {showJobs env.jobs}"
+  s!"v={",".intercalate v} f={",".intercalate f} a={",".intercalate a} o={",".intercalate env.options} u={env.system.umask} l={env.system.nofile} t={",".intercalate t} p={",".intercalate env.variables.params} {showSys env.system} {showJobs env.jobs}"
 
 /-- take snapshot `tag` in a live process; `withTrap = false`: the snapshot does not run the `trap` built-in
     (no peeking, empty `t=`) -/
